@@ -65,7 +65,11 @@ func TestFamiliesParseRate(t *testing.T) {
 		ok := 0
 		bad := map[string]int{}
 		for _, m := range ms {
-			if _, o := Parse(m); o {
+			_, o, _, rej := ParseChecked(m)
+			if rej != nil {
+				t.Errorf("%s: %s\n%s\n%s", m.Src, rej.Key, rej.Err, m.Text)
+			}
+			if o {
 				ok++
 			} else {
 				parts := strings.Split(m.Src, ":")
@@ -84,10 +88,22 @@ func TestFamiliesParseRate(t *testing.T) {
 	report("uncompilable", UncompilableModules())
 	report("comment-placement", CommentPlacementModules(false))
 	report("comment-placement-deep", CommentPlacementModules(true))
+	{
+		by := map[string]int{}
+		for _, m := range QuotedRegoModules(false) {
+			parts := strings.Split(m.Src, ":")
+			by[parts[len(parts)-1]]++
+		}
+		fmt.Fprintf(os.Stderr, "quoted-rego by mode: %v\n", by)
+	}
+	report("quoted-rego", QuotedRegoModules(false))
+	report("quoted-rego-deep", QuotedRegoModules(true))
+	report("line-breaks", LineBreakModules(false))
+	report("line-breaks-deep", LineBreakModules(true))
 	r := hutil.NewRng(3)
 	base := GenModules(r, 150)
 	base = append(base, StressModules(1)...)
-	for _, k := range []string{"shadow-imports", "dup-heads", "uncompilable-body", "comments-at-boundaries"} {
+	for _, k := range []string{"shadow-imports", "dup-heads", "uncompilable-body", "comments-at-boundaries", "quote-rego-source", "break-lines"} {
 		var ms []Module
 		same := 0
 		for i, b := range base {
